@@ -46,6 +46,9 @@ def factMethods : MethodTable := fun f ncalls st recv args =>
     | "Sum", as => match as.mapM i64? with
       | some is => .ran (.ok (.int .int64 (wrapI64 (is.foldl (· + ·) 0)))) st false
       | none => .badArgs
+    | "Cat", as => match as.mapM (fun v => match v with | .str x => some x | _ => none) with
+      | some xs => .ran (.ok (.str (String.intercalate "|" xs))) st false
+      | none => .badArgs
     | "Boom", [.int .int64 m] => if m == 1 then .ran (panicErr "boom") st false else .ran (.ok (.int .int64 m)) st false
     | "Boom", _ => .badArgs
     | "FailAt", [.int .int64 k] =>
